@@ -159,3 +159,16 @@ Definition prop_e2e (input impl : val) : option Z :=
   if negb (as_bool (nthv 1 impl)) then Some 5
   else if Z.eqb (as_Z (nthv 0 impl)) (as_Z (nthv 3 input)) then None else Some 7.
 Definition chk_fwd_e2e : val -> val := mk_chk run_e2e prop_e2e.
+
+(* ---------- C01, byte identity through the real ServiceRouter and GRPCProxy (messages are opaque in the forwarder model: the
+   model of this part is the identity on both message sequences) ----------
+   input ( method requests responses ) ; impl ( received-by-target received-by-client final-code )
+     8: the target did not receive exactly the bytes the client sent, in order
+     9: the client did not receive exactly the bytes the target sent, in order
+     10: the call did not end with the target's OK status *)
+Definition run_c01_bytes (v : val) : val := VL [nthv 1 v; nthv 2 v; VN 0].
+Definition prop_c01_bytes (input impl : val) : option Z :=
+  if negb (val_eqb (nthv 0 impl) (nthv 1 input)) then Some 8
+  else if negb (val_eqb (nthv 1 impl) (nthv 2 input)) then Some 9
+  else if negb (Z.eqb (as_Z (nthv 2 impl)) 0) then Some 10 else None.
+Definition chk_c01_bytes : val -> val := mk_chk run_c01_bytes prop_c01_bytes.
